@@ -9,6 +9,7 @@ Decided clauses:
   * hooks   one start-hook call before and one stop-hook call after the loop of a worker, neither in a cycle;
             the virtual thread's start hook runs only after its successful initialisation and its stop hook only
             if it was started
+  * R-STATE over the four thread states, the set tp_shutdown() messages covers the set tp_shutdown_wait() joins
   * R-RACE  check-then-act / read-modify-write on the shutdown latch without atomicity
 Not decided: termination and absence of late callbacks for every schedule.
 """
@@ -287,6 +288,79 @@ def hooks(rep, u):
                       target_desc="stop hook / shutdown message", require_dominance=True)
 
 
+def state_filters(rep, u):
+    """R-STATE: over the finite set of thread states, every thread that tp_shutdown_wait() will join was sent the
+    stop message by tp_shutdown() (or is already stopping).  The two filters are evaluated state by state; the
+    helper predicate tpt_is_running() is evaluated from its own return expression."""
+    states = tp.probe(tp.TP_C, {n: "TP_THREAD_STATE_" + n for n in ("STOP", "STOPING", "STARTING", "RUNNING")}, "probe:tpstate")
+    if any(v is None for v in states.values()):
+        raise driver.AnalysisBroken("thread state constants not evaluable")
+    fr = tp.need(u, "tpt_is_running")
+
+    def is_running(sv):
+        rets = [r for pos, r in fr.returns() if not (const_val(r.get("e")) == 0 and core.strip_casts(r.get("e")).get("k") == "int")]
+        if not rets:
+            return None
+        e = core.strip_casts(rets[-1]["e"])
+        if e.get("k") == "lazy":
+            e = e["lz"]
+
+        def hook(n_, rec):
+            if n_.get("k") == "mem" and n_["f"] == "state":
+                return sv
+            if n_.get("k") == "lazy":
+                return rec(n_["lz"])
+            return None
+        try:
+            return r_mpt.eval_expr(e, {}, hook)
+        except r_mpt.Unknown:
+            return None
+
+    def passes(fn, targets, sv):
+        """can a thread in state sv reach one of the target calls in the per-thread loop of fn?"""
+        verdict = None
+        for bid in fn.reachable_blocks():
+            c = fn.blocks[bid].cond
+            if c is None or len(fn.blocks[bid].succ) != 2:
+                continue
+            mentions = [x for x, _ in walk(c) if (x.get("k") == "mem" and x["f"] == "state" and "threads" in key(x)) or
+                        (x.get("k") == "call" and x.get("fn") == "tpt_is_running")]
+            if not mentions:
+                continue
+
+            def hook(n_, rec):
+                if n_.get("k") == "call" and n_.get("fn") == "tpt_is_running":
+                    return is_running(sv)
+                if n_.get("k") == "mem" and n_["f"] == "state":
+                    return sv
+                return None
+            try:
+                v = r_mpt.eval_expr(c, {}, hook)
+            except (r_mpt.Unknown, TypeError):
+                return None
+            s_ = fn.blocks[bid].succ[0] if v else fn.blocks[bid].succ[1]
+            ok = r_mpt.can_reach(fn, s_, targets, avoid=[bid])
+            verdict = ok if verdict is None else (verdict and ok)
+        return verdict
+    fs, fw = tp.need(u, "tp_shutdown"), tp.need(u, "tp_shutdown_wait")
+    sends = [pos for pos, root, c, ps in fs.calls({"tpt_msg_send"})]
+    joins = [pos for pos, root, c, ps in fw.calls({"pthread_join"})]
+    bad = []
+    tbl = {}
+    for nm, sv in states.items():
+        m, j = passes(fs, sends, sv), passes(fw, joins, sv)
+        tbl[nm] = (m, j)
+        if m is None or j is None:
+            bad.append("%s: filter not evaluable" % nm)
+        elif j and not m and nm != "STOPING":
+            bad.append("a thread in state %s is joined by tp_shutdown_wait() but never told to stop by tp_shutdown()" % nm)
+    desc = "every thread state that tp_shutdown_wait() joins is sent the stop message by tp_shutdown() (STOPING excepted)"
+    if bad:
+        rep.violated("R-STATE", fs, "messaged-covers-joined", desc, "; ".join(bad))
+    else:
+        rep.proved("R-STATE", fs, "messaged-covers-joined", desc, "state -> (messaged, joined): %s" % tbl)
+
+
 def race(rep, u):
     """check-then-act / read-modify-write on life-cycle latches without atomics or a lock"""
     n = 0
@@ -342,6 +416,7 @@ def run(rep, tier):
     (rep.proved if ok else rep.violated)("R-PAIR", fi, "init-failure-undone", "a failed thread-data initialisation releases what it created before returning the error")
     guards(rep, u)
     hooks(rep, u)
+    state_filters(rep, u)
     race(rep, u)
     return driver.finish(
         rep, "other",
